@@ -142,7 +142,8 @@ def make_nobytes(did, line_fn, text):
 
 
 PRINTABLE = [chr(c) for c in range(32, 127)]
-DELIMS = ['"', "'", "/", ":"]      # delimiters inside the documented operand character set
+DELIMS = ['"', "'", "/", ":", "#", "<", ">", "$", "%", "!", "&", "*", "(", "=", "?", "^", ".", "@", "+", "-", "["]
+#          delimiters inside the documented operand character set (comma and ] excluded: list / bracket syntax)
 
 
 def fcc_case(content, delim, comment=""):
@@ -197,7 +198,7 @@ def fcc_cases(tier, seed):
                 one.append((c, d, ""))
     groups["len0-1"] = one
     two = []
-    for d in DELIMS:
+    for d in DELIMS[:6]:
         chars = [c for c in PRINTABLE if c != d]
         if tier == "thorough":
             two += [(a + b, d, "") for a in chars for b in chars]
@@ -210,7 +211,7 @@ def fcc_cases(tier, seed):
              "it's", 'say "hi"', "a/b", "a|b", "[x]", "<y>", "~", "A~B", "{}", "x" * 255, " " * 255, "ab " * 85,
              ";" * 10, "A" * 254 + ";", "END", "FCC", "LABEL NOP", "  LDA #1", "; comment", "A ; comment"]
     for w in words:
-        for d in DELIMS:
+        for d in DELIMS[:8]:
             if d not in w:
                 corpus.append((w, d, ""))
                 corpus.append((w, d, " ; trailing comment"))
